@@ -107,7 +107,9 @@ def main():
         a.tier = "quick"
     t0 = time.time()
     rep = plans.PLANS[a.prop](a.prop, a.tier)
-    return finish(a.prop, a.tier, rep, t0)
+    rc = finish(a.prop, a.tier, rep, t0)
+    svlib.prune_build_cache(set(), max_dirs=20000)   # content-addressed: safe to drop old entries
+    return rc
 
 
 if __name__ == "__main__":
